@@ -373,8 +373,12 @@ POLY2D_NONCONVEX = {
 # --------------------------------------------------------------------------
 # placement
 # --------------------------------------------------------------------------
-def place3d(verts, rng, rotate=True, scale=None, offset_diam=None):
-    """Random proper rotation, scale 10^U(-2,2), offset 0/1/10 diameters."""
+def place3d(verts, rng, rotate=True, scale=None, offset_diam=None, noise=None):
+    """Random proper rotation, scale 10^U(-2,2), offset 0/1/10 diameters.
+    ``noise``: per-coordinate perturbation (relative to the size) added last - with
+    ``rotate=False`` this gives an *almost* axis-aligned shape whose coordinates about the
+    centre are tiny but not zero (coordinates read from a file, round-off of an earlier
+    transformation)."""
     v = np.asarray(verts, float)
     v = v - v.mean(axis=0)
     diam = float(np.max(np.linalg.norm(v[:, None] - v[None], axis=-1)))
@@ -385,6 +389,9 @@ def place3d(verts, rng, rotate=True, scale=None, offset_diam=None):
     R = random_rotation(rng) if rotate else np.eye(3)
     v = (v @ R.T) * scale
     off = np.array(rng.unit_vector(3)) * offset_diam * diam * scale
+    if noise:
+        v = v + np.array([[rng.uniform(-1, 1) for _ in range(3)] for _ in range(len(v))]) \
+            * noise * diam * scale
     return (v + off), R, scale, off
 
 
